@@ -31,7 +31,9 @@ RULE = ("ops: roundtrip (ADMGs 0-8 nodes with isolated / bidirected-only nodes, 
         "with parents, with 0/1/many children, duplicate and nested child sets, isolated latents/observed), evans "
         "(ADMG + extra latent set), from_lv (arbitrary tagged DAGs incl. untagged nodes), design (taheri _get_result, "
         "oracle only); malformed stream: cyclic graphs, untagged nodes; name-collision stream (a node already called "
-        "u_i / v_prime); small-scope slice: every DAG on <=3 (quick) / <=5 (thorough) nodes x every latent subset; thorough "
+        "u_i / v_prime); rule-1 stream (hard_dag: R->U->L->C with U->A, three nested latents, latents whose children are "
+        "partly latent, a latent parent above the head, `<latent>_prime` names already taken); u_i stream (hard_admg: "
+        ">=2 bidirected edges and 1-3 observed nodes called u_j, j <= number of bidirected edges); small-scope slice: every DAG on <=3 (quick) / <=5 (thorough) nodes x every latent subset; thorough "
         "adds DAGs up to 11 nodes with sampled separation triples. A simplify/evans case is non-trivial when at least one rule changed the graph "
         "and at least two observed nodes remain; a roundtrip case when it has an edge-less node or >=2 bidirected edges.")
 ASSUMPTIONS = [
@@ -98,6 +100,16 @@ CORPUS = [
     {"op": "simplify", "d": _d([["PA", "L"], ["L", "C"], ["L", "D"], ["L_prime", "C"], ["L_prime", "D"], ["L_prime", "E"]], ["L", "L_prime"])},
     {"op": "roundtrip", "g": {"nodes": ["u_0", "A", "B"], "di": [["u_0", "B"]], "bi": [["A", "B"]]}},
     {"op": "evans", "g": {"nodes": ["u_0", "A", "B"], "di": [], "bi": [["A", "B"]]}, "extra": []},
+    # rule 1 on a chain headed by a latent with a parent: R -> U -> L -> C, U -> A (projection has A <-> C);
+    # three nested latents; a latent whose children are partly latent (witnesses of seeded bug C16b)
+    {"op": "simplify", "d": _d([["R", "U"], ["U", "L"], ["L", "C"], ["U", "A"]], ["U", "L"])},
+    {"op": "simplify", "d": _d([["P", "U1"], ["U1", "U2"], ["U2", "U3"], ["U3", "C"], ["U1", "A"], ["U2", "B"]], ["U1", "U2", "U3"])},
+    {"op": "simplify", "d": _d([["R", "U"], ["U", "L1"], ["U", "L2"], ["U", "A"], ["L1", "C1"], ["L2", "C2"]], ["U", "L1", "L2"])},
+    {"op": "simplify", "d": _d([["R", "U"], ["U", "L"], ["L", "C"], ["U", "A"], ["U_prime", "A"], ["U_prime", "R"]], ["U", "L"])},
+    # several bidirected edges next to observed nodes called u_1 / u_0,u_2 (witnesses of seeded bug C16a)
+    {"op": "roundtrip", "g": {"nodes": ["u_1", "A", "B"], "di": [], "bi": [["A", "B"], ["B", "u_1"]]}},
+    {"op": "roundtrip", "g": {"nodes": ["u_0", "u_2", "A", "B", "C"], "di": [["u_0", "A"]], "bi": [["A", "B"], ["B", "C"], ["u_2", "C"]]}},
+    {"op": "evans", "g": {"nodes": ["u_1", "A", "B", "M"], "di": [["A", "M"], ["M", "B"]], "bi": [["A", "B"], ["M", "u_1"]]}, "extra": ["M"]},
     {"op": "from_lv", "d": _d([["L", "X"], ["L", "Y"], ["X", "Y"]], ["L"], nodes=["Z"])},
     {"op": "from_lv", "d": _d([["L", "X"]], ["L"], nodes=["Q1"], untagged=["Q1"])},
     {"op": "design", "d": _d([["L", "X"], ["L", "Y"], ["X", "Y"]], ["L"]), "cause": "X", "effect": "Y"},
@@ -224,6 +236,112 @@ def rand_admg(rng, nmax=8, collide=0.0):
             "bi": [[ren[u], ren[v]] for u, v in g["bi"]]}
 
 
+def hard_dag(rng):
+    """families aimed at rule 1 (a latent WITH a parent heading a chain of latents; latents whose children are
+    partly latent; three nested latents) and at the names the code invents (`v_prime` already a node)"""
+    kind = rng.choice(["headed_chain", "three_nested", "partly_latent_children", "latent_parent_of_head"])
+    o = [nm(i) for i in rng.sample(range(8), 6)]          # observed pool
+    lp = [nm(i) for i in rng.sample(range(8, 14), 5)]     # latent pool
+    edges, latent = [], []
+    if kind == "headed_chain":
+        # R -> U -> L -> C, U -> A (U, L latent): the exogenous copy of U must reach C through L
+        R, A, Cn, B = o[0], o[1], o[2], o[3]
+        U, L = lp[0], lp[1]
+        latent = [U, L]
+        edges = [[R, U], [U, L], [L, Cn], [U, A]]
+        if rng.random() < 0.4:
+            edges.append([L, B])
+        if rng.random() < 0.3:
+            edges.append([R, A])
+        if rng.random() < 0.3:
+            edges.append([A, Cn])
+    elif kind == "three_nested":
+        # P -> U1 -> U2 -> U3 -> C3, side children A1 <- U1, A2 <- U2 (at least two observed leaves)
+        P, A1, A2, C3 = o[0], o[1], o[2], o[3]
+        U1, U2, U3 = lp[0], lp[1], lp[2]
+        latent = [U1, U2, U3]
+        edges = [[U1, U2], [U2, U3], [U3, C3]]
+        side = [[U1, A1], [U2, A2]]
+        rng.shuffle(side)
+        edges += side[:rng.randint(1, 2)]
+        if rng.random() < 0.8:
+            edges.append([P, U1])
+        if rng.random() < 0.3:
+            edges.append([U3, o[4]])
+        if rng.random() < 0.3:
+            edges.append([U1, U3])
+    elif kind == "partly_latent_children":
+        # U -> {L1, L2, A}; L1 -> C1; L2 -> C2: children of U partly latent
+        U, L1, L2 = lp[0], lp[1], lp[2]
+        A, C1, C2, R = o[0], o[1], o[2], o[3]
+        latent = [U, L1, L2]
+        edges = [[U, L1], [L1, C1]]
+        if rng.random() < 0.7:
+            edges.append([U, A])
+        if rng.random() < 0.7:
+            edges += [[U, L2], [L2, C2]]
+        if rng.random() < 0.6:
+            edges.append([R, U])
+        if rng.random() < 0.3:
+            edges.append([L1, L2])
+        if rng.random() < 0.3:
+            edges.append([R, L1])
+    else:
+        # W -> U -> L -> C, U -> A with W latent too (W exogenous or with an observed parent)
+        W, U, L = lp[0], lp[1], lp[2]
+        A, Cn, R, B = o[0], o[1], o[2], o[3]
+        latent = [W, U, L]
+        edges = [[W, U], [U, L], [L, Cn], [U, A]]
+        if rng.random() < 0.5:
+            edges.append([R, W])
+        if rng.random() < 0.5:
+            edges.append([W, B])
+    for i in range(4):
+        for j in range(i + 1, 4):
+            if rng.random() < 0.12:
+                edges.append([o[i], o[j]])
+    edges = [list(x) for x in dict.fromkeys(tuple(e) for e in edges)]
+    nodes = list(dict.fromkeys([x for e in edges for x in e]))
+    good = []
+    for e in edges:
+        if O.is_acyclic(nodes, good + [e]):
+            good.append(e)
+    # the names rule 1 wants to use are already taken (observed or latent nodes called `<latent>_prime…`)
+    if rng.random() < 0.45:
+        pa = {v for _, v in good}
+        ch = {u for u, _ in good}
+        mids = [l for l in latent if l in pa and l in ch]
+        for l in rng.sample(mids, min(len(mids), rng.randint(1, 2))):
+            for depth in range(1, rng.choice([1, 1, 2]) + 1):
+                new = l + SUF * depth
+                nodes.append(new)
+                if rng.random() < 0.4:
+                    latent = latent + [new]
+                obs_now = [v for v in nodes if v not in latent and v != new]
+                for t in rng.sample(obs_now, min(len(obs_now), rng.randint(0, 2))):
+                    good.append([new, t])
+    rng.shuffle(nodes)
+    rng.shuffle(good)
+    return {"nodes": nodes, "edges": good, "latent": list(latent), "untagged": []}
+
+
+def hard_admg(rng):
+    """ADMGs with several bidirected edges in which observed nodes are already called like the latents
+    `_latent_dag` generates (`u_0`, `u_1`, …), some of them endpoints of bidirected edges"""
+    n = rng.randint(3, 6)
+    k_u = rng.randint(1, 3)
+    base = [nm(i) for i in rng.sample(range(14), n)]
+    pairs = list(itt.combinations(range(n + k_u), 2))
+    m = rng.randint(2, min(6, len(pairs)))
+    us = [f"u_{j}" for j in rng.sample(range(m + 1), min(m + 1, k_u))]
+    names = base + us
+    rng.shuffle(names)
+    bi = [[names[i], names[j]] if rng.random() < 0.5 else [names[j], names[i]] for i, j in rng.sample(pairs, m)]
+    di = [[names[i], names[j]] for i, j in pairs if rng.random() < 0.2]
+    nodes = [v for v in names if rng.random() < 0.7]
+    return {"nodes": nodes, "di": di, "bi": bi}
+
+
 def _corpus_files():
     """witnesses kept under corpus/C16/*.json (replay files of past violations: key "case")"""
     out = []
@@ -316,6 +434,15 @@ def cases(rng: random.Random, tier: str):
             else:
                 nodes = G.all_nodes(g)
                 out.append({"op": "evans", "g": g, "extra": [v for v in nodes if rng.random() < 0.3]})
+    for _ in range(110 * k):  # rule 1 on chains headed by a latent with a parent, partly latent children, taken names
+        out.append({"op": "simplify", "d": hard_dag(rng)})
+    for _ in range(50 * k):   # observed nodes called u_0, u_1, … next to several bidirected edges
+        g = hard_admg(rng)
+        if rng.random() < 0.6:
+            out.append({"op": "roundtrip", "g": g})
+        else:
+            obs = [v for v in G.all_nodes(g)]
+            out.append({"op": "evans", "g": g, "extra": [v for v in obs if rng.random() < rng.choice([0.0, 0.3])]})
     # small-scope exhaustive slice: every DAG on n nodes (edges i -> j for i < j) x every latent subset,
     # names assigned by one random permutation per graph (so name order vs topological order varies)
     nmax_ex = 3 if tier == "quick" else 5
